@@ -41,16 +41,40 @@ func (b *builder) flowAct(scopeOK bool) []actJ {
 		return []actJ{{A: "allow", Scope: []string{"", "phase", "request"}[r.Intn(3)]}}
 	case x < 88 && scopeOK:
 		return []actJ{{A: "deny"}}
-	case x < 92:
+	case x < 90:
 		return []actJ{{A: "skip", N: 1 + r.Intn(3)}, {A: "skipAfter", M: markerPool[r.Intn(len(markerPool))]}}
-	case x < 95:
+	case x < 92:
 		return []actJ{{A: "skipAfter", M: markerPool[r.Intn(2)]}, {A: "skip", N: 1 + r.Intn(2)}, {A: "skipAfter", M: markerPool[r.Intn(2)]}}
-	case x < 97:
+	case x < 94:
 		return []actJ{{A: "skip", N: 1 + r.Intn(4)}, {A: "skip", N: 1 + r.Intn(4)}}
 	case scopeOK:
-		return []actJ{{A: "skip", N: 1 + r.Intn(3)}, {A: "allow", Scope: []string{"", "phase", "request"}[r.Intn(3)]}}
+		return disruptiveWithFlow(r)
 	}
 	return []actJ{{A: "skip", N: 1}}
+}
+
+// disruptiveWithFlow: ONE rule carrying a disruptive action together with skip / skipAfter (the skip
+// state set by the rule that also interrupts or allows must not outlive its phase)
+func disruptiveWithFlow(r *rand.Rand) []actJ {
+	var dis actJ
+	if r.Intn(2) == 0 {
+		dis = actJ{A: "deny"}
+	} else {
+		dis = actJ{A: "allow", Scope: []string{"", "phase", "request"}[r.Intn(3)]}
+	}
+	var flow []actJ
+	switch r.Intn(4) {
+	case 0, 1:
+		flow = []actJ{{A: "skip", N: 1 + r.Intn(3)}}
+	case 2:
+		flow = []actJ{{A: "skipAfter", M: markerPool[r.Intn(len(markerPool))]}}
+	default:
+		flow = []actJ{{A: "skip", N: 1 + r.Intn(2)}, {A: "skipAfter", M: markerPool[r.Intn(2)]}}
+	}
+	if r.Intn(2) == 0 {
+		return append([]actJ{dis}, flow...)
+	}
+	return append(flow, dis)
 }
 
 // rule appends a rule of the given phase; chainLen links; acts as given
@@ -117,14 +141,131 @@ func genRandom(r *rand.Rand, maxKeys int) ruleSet {
 			}
 		}
 	}
+	if r.Intn(4) == 0 {
+		for i := range b.rules {
+			for j := range b.rules[i].Links {
+				if r.Intn(10) == 0 {
+					b.rules[i].Links[j].Eng = pickSwitch(r)
+				}
+			}
+		}
+	}
 	return ruleSet{Engine: pickEngine(r), Rules: b.rules, Shape: "random"}
 }
 
 func pickEngine(r *rand.Rand) string {
-	if r.Intn(4) == 0 {
+	switch x := r.Intn(100); {
+	case x < 25:
 		return "DetectionOnly"
+	case x < 27:
+		return "Off"
 	}
 	return "On"
+}
+
+var modes = []string{"On", "DetectionOnly", "Off"}
+
+func pickSwitch(r *rand.Rand) string {
+	switch x := r.Intn(100); {
+	case x < 45:
+		return "DetectionOnly"
+	case x < 90:
+		return "On"
+	}
+	return "Off"
+}
+
+// genInterruptLeak: a rule that interrupts (or allows) AND sets skip state, more rules behind it in the
+// file, and logging-phase rules (with and without markers) that a leaked counter / pending marker would
+// pass over.
+func genInterruptLeak(r *rand.Rand, maxKeys int) ruleSet {
+	b := &builder{r: r, maxKeys: maxKeys}
+	p := 1 + r.Intn(4)
+	if r.Intn(3) == 0 {
+		b.rule(5, 1, nil, true) // a logging rule in front of everything
+	}
+	for i := r.Intn(3); i > 0; i-- {
+		b.rule(p, 1, nil, r.Intn(2) == 0)
+	}
+	b.rule(p, chainLen(r), disruptiveWithFlow(r), r.Intn(2) == 0)
+	for i := r.Intn(3); i > 0; i-- {
+		b.rule(p, 1, nil, r.Intn(2) == 0)
+	}
+	if r.Intn(2) == 0 && p < 4 {
+		b.rule(p+1, 1, nil, true)
+	}
+	for i := 1 + r.Intn(4); i > 0; i-- {
+		if r.Intn(4) == 0 {
+			b.marker(markerPool[r.Intn(2)])
+		}
+		b.rule(5, 1, nil, r.Intn(4) != 0)
+	}
+	eng := "On"
+	if r.Intn(6) == 0 {
+		eng = "DetectionOnly"
+	}
+	return ruleSet{Engine: eng, Rules: b.rules, Shape: "interrupt-with-skip-state"}
+}
+
+// genEngineSwitch: ctl:ruleEngine switches the mode of the running transaction, before / after (same
+// phase, earlier phase, same rule, on a chain member) rules with allow and deny, under every configured
+// mode; followed by rules that allow would pass over.
+func genEngineSwitch(r *rand.Rand, maxKeys int) ruleSet {
+	b := &builder{r: r, maxKeys: maxKeys}
+	p := 1 + r.Intn(4)
+	sw := func(phase int) {
+		ru := b.rule(phase, 1+r.Intn(2), nil, r.Intn(2) == 0)
+		ru.Links[r.Intn(len(ru.Links))].Eng = pickSwitch(r)
+	}
+	dis := func(phase int) {
+		var acts []actJ
+		switch r.Intn(5) {
+		case 0:
+			acts = []actJ{{A: "deny"}}
+		case 1:
+			acts = disruptiveWithFlow(r)
+		default:
+			acts = []actJ{{A: "allow", Scope: []string{"", "phase", "request"}[r.Intn(3)]}}
+		}
+		ru := b.rule(phase, chainLen(r), acts, r.Intn(2) == 0)
+		if r.Intn(5) == 0 {
+			// the rule that allows / denies switches the mode itself (its ctl runs first)
+			ru.Links[r.Intn(len(ru.Links))].Eng = pickSwitch(r)
+		}
+	}
+	plain := func(phase int) { b.rule(phase, 1, nil, r.Intn(2) == 0) }
+	switch r.Intn(4) {
+	case 0: // switch, then allow/deny in the same phase
+		sw(p)
+		dis(p)
+	case 1: // switch in an earlier phase
+		sw(1 + r.Intn(p))
+		plain(p)
+		dis(p)
+	case 2: // allow/deny first, switch behind it (must have no retroactive effect)
+		dis(p)
+		sw(p)
+		plain(p)
+	default: // two switches around the disruptive rule
+		sw(p)
+		dis(p)
+		sw(p)
+		dis(p)
+	}
+	plain(p)
+	if r.Intn(2) == 0 {
+		dis(p)
+	}
+	for q := p + 1; q <= 5; q++ {
+		if r.Intn(3) != 0 || q == 5 {
+			plain(q)
+		}
+	}
+	eng := modes[r.Intn(2)]
+	if r.Intn(12) == 0 {
+		eng = "Off"
+	}
+	return ruleSet{Engine: eng, Rules: b.rules, Shape: "engine-switch"}
 }
 
 // genPlacement builds the placements the property's quantifier names: the jumping rule first / last /
@@ -333,11 +474,19 @@ func generate(cfg vh.Config) []ruleSet {
 	exhaustiveKeys := cfg.Pick(4, 6)
 	for i := 0; total < budget; i++ {
 		var s ruleSet
-		switch i % 6 {
+		switch i % 10 {
 		case 4:
 			s = genRemoval(r, 2+r.Intn(exhaustiveKeys-1))
 		case 5:
 			s = genRemoval(r, 48)
+		case 6:
+			s = genInterruptLeak(r, 2+r.Intn(exhaustiveKeys-1))
+		case 7:
+			s = genInterruptLeak(r, 48)
+		case 8:
+			s = genEngineSwitch(r, 2+r.Intn(exhaustiveKeys-1))
+		case 9:
+			s = genEngineSwitch(r, 48)
 		case 0: // few keys: every subset of matches
 			s = genRandom(r, 2+r.Intn(exhaustiveKeys-1))
 		case 1:
